@@ -2,7 +2,9 @@
 kernel is re-emitted over PrimFloat (constants not folded) and evaluated inside Coq (vm_compute) on inputs given as
 float.hex() literals; the results must equal what the real numpy kernel returned BIT FOR BIT (NaN = NaN; the sign of zero is
 not distinguished).  Kernels: those whose operations PrimFloat has (+ - * / abs max, x**2 = x*x, comparisons):
-derivatives_hydraulic_incomp_np, derivatives_hydraulic_comp_np, calc_derived_values_np."""
+derivatives_hydraulic_incomp_np/_numba, derivatives_hydraulic_comp_np/_numba, calc_derived_values_np/_numba and, numba only
+(x ** 3 is (x*x)*x in LLVM but pow() in numpy, which differs in the last bit for 26 % of inputs),
+calc_medium_pressure_with_derivative_numba, get_pressures_numba, get_gas_vel_numba."""
 import numpy as np
 
 from translate import kernels as K
@@ -23,10 +25,11 @@ def hexlit(x):
     return "(%s)" % h if h.startswith("-") else h
 
 
-def shadow_cases(rng, n_rows):
+def shadow_cases(rng, n_rows, numba_twins=True):
     """-> (coq text, list of (kernel, output, row) in case order)"""
     from pandapipes import idx_branch as B, idx_node as N
-    from pandapipes.pf import derivative_toolbox as T
+    from pandapipes.pf import derivative_toolbox as T, derivative_toolbox_numba as U
+    from pandapipes.pf import result_extraction as X
     from harness import c07_kernels as CK
     br, node, kinds, v = CK.make_arrays(rng, n_rows)
     keep = ~np.isnan(br[:, B.MDOTINIT])
@@ -53,10 +56,42 @@ def shadow_cases(rng, n_rows):
              dict(zip(hn, cmp_))),
             (K.translate(K.TB_NP, "calc_derived_values_np", K._DERIVED, name="derived_np", fold=False),
              dict(zip(["tinit_branch", "height_difference", "p_init_i_abs", "p_init_i1_abs"], der)))]
+    # numba twins (x ** 3 = (x*x)*x there): hydraulic kernels, medium pressure, derived values, gas result post-processing
+    with np.errstate(all="ignore"):
+        inc_nb = U.derivatives_hydraulic_incomp_numba(br, v["der_lambda"], pi, pi1, hd, v["rho"])
+        cmp_nb = U.derivatives_hydraulic_comp_numba(node, br, v["lambda_"], v["der_lambda"], pi, pi1, hd, v["comp_fact"],
+                                                    v["der_comp"], v["der_comp1"], v["rho"], v["rho_n"])
+        pm_nb = U.calc_medium_pressure_with_derivative_numba(pi, pi1)
+        der_nb = U.calc_derived_values_numba(node, fn, tn)
+        v_mps = br[:, B.MDOTINIT] / (v["rho_n"] * br[:, B.AREA])
+        pf, pt = node[fn, N.PINIT], node[tn, N.PINIT]
+        gp = X.get_pressures_numba(node, fn, tn, v_mps, pf, pt)
+        r2 = np.random.RandomState(len(br))
+        comp = [r2.uniform(0.8, 1.05, len(br)) for _ in range(3)]
+        t_in = node[fn, N.TINIT].copy()
+        gv = X.get_gas_vel_numba(t_in, br, comp[0], comp[1], comp[2], gp[0], gp[1], gp[2], v_mps)
+    env.update(p_from=pf, p_to=pt, v_mps=v_mps, comp_from=comp[0], comp_to=comp[1], comp_mean=comp[2], t_from_in=t_in,
+               p_abs_from=gp[0], p_abs_to=gp[1], p_abs_mean=gp[2])
+    gvn = ["v_gas_from", "v_gas_to", "v_gas_mean", "normfactor_from", "normfactor_to", "normfactor_mean"]
+    kp, kv = K.translate(K.RE_X, "get_pressures_numba", {"node_pit": "npit", "from_nodes": "from", "to_nodes": "to"},
+                         name="gaspress_nb", fold=False), \
+        K.translate(K.RE_X, "get_gas_vel_numba", {"branch_pit": "bpit"}, name="gasvel_nb", fold=False)
+    jobs_nb = [(K.translate(K.TB_NB, "derivatives_hydraulic_incomp_numba", K._HYD_INCOMP, name="hyd_incomp_nb", fold=False),
+                dict(zip(hn, inc_nb))),
+               (K.translate(K.TB_NB, "derivatives_hydraulic_comp_numba", K._HYD_COMP, name="hyd_comp_nb", fold=False),
+                dict(zip(hn, cmp_nb))),
+               (K.translate(K.TB_NB, "calc_medium_pressure_with_derivative_numba", {}, name="pm_nb", fold=False),
+                dict(zip(["p_m", "der_p_m", "der_p_m1"], pm_nb))),
+               (K.translate(K.TB_NB, "calc_derived_values_numba", K._DERIVED, name="derived_nb", fold=False),
+                dict(zip(["tinit_branch", "height_difference", "p_init_i_abs", "p_init_i1_abs"], der_nb))),
+               (kp, dict(zip(["p_abs_from", "p_abs_to", "p_abs_mean"], gp))), (kv, dict(zip(gvn, gv)))]
+    if not numba_twins:
+        jobs_nb = []
+    jobs = [(k, o, False) for k, o in jobs] + [(k, o, True) for k, o in jobs_nb]
     text = [K.FHEADER, SUMMARY]
     items, index = [], []
-    for k, outs in jobs:
-        text.append(K.float_defs(k))
+    for k, outs, chain in jobs:
+        text.append(K.float_defs(k, pow_chain=chain))
         sig = [n for n, _ in k.signature()]
         for name in k.output_names():
             exp = np.broadcast_to(np.asarray(outs[name], float), (len(br),))
